@@ -13,6 +13,9 @@ entry.  Request of every op: {"op", "program": <export_ast.export_program>, "pac
  visit_op  -> {"r": {"texts": […], "state": {…}}} top-level declarations visited from a hand-set state
  state_op  -> {"r": {attr: value}}                attributes after history + program
  issam_op  -> {"r": [[class name, bool]…]}        (optional) the model's `tu.is_sam` on every top-level class
+Optional keys: `reset` (the `op` understands {"reset": true}: `_reset_state()` is called after the history; the
+plugin records `<lang>_after_reset`), `is_op_text` (text of the operator piece the model prints for `is` / `!is`,
+check_C12 leg K5), `sem_op` absent = no K4 leg.
 `state_attrs`: attribute names of the real translator object compared with the model's state
 (`_nodes_stack` is compared by length only: frames are summaries)."""
 
@@ -29,6 +32,20 @@ MODELS = {
         "sem_op": "trans.kotlin.sem",
         "state_attrs": ["ident", "is_unit", "is_lambda", "_cast_integers"],
         "model": "lean/Heph/Model/TransKotlin.lean",
+        "decl_tags": ["class", "tparam", "field", "func", "param", "var", "super", "varannot", "retannot",
+                      "targs", "new"],
+    },
+    "scala": {
+        "op": "trans.scala",
+        "doc_op": "trans.scala.doc",
+        "inv_op": "trans.scala.inventory",
+        "visit_op": "trans.scala.visit",
+        "state_op": "trans.scala.state",
+        "sem_op": "trans.scala.sem",
+        "reset": True,      # `op` understands {"reset": true}: `_reset_state()` after the history
+        "is_op_text": "isInstanceOf",   # text of the operator piece of `is` / `!is` (check_C12 K5)
+        "state_attrs": ["ident", "is_unit", "is_lambda", "_cast_integers"],
+        "model": "lean/Heph/Model/TransScala.lean",
         "decl_tags": ["class", "tparam", "field", "func", "param", "var", "super", "varannot", "retannot",
                       "targs", "new"],
     },
